@@ -1,7 +1,7 @@
 (* C15 — parts of the full statement that are false of the (faithful) model. *)
 From Coq Require Import String List Bool ZArith Permutation.
 Import ListNotations.
-Require Import V.Lib.PyStr V.Lib.JTree V.Det.Model V.Det.Proofs V.Det.Refs V.Det.Aggregate V.Det.Replicate.
+Require Import V.Lib.PyStr V.Lib.JTree V.Det.Model V.Det.Proofs V.Det.Refs V.Det.Aggregate V.Det.Replicate V.Det.Reparam.
 Open Scope string_scope.
 Open Scope list_scope.
 
@@ -126,3 +126,24 @@ Proof.
   - intros x p. unfold groups_at. cbn. repeat (destruct (loc_eqb x _); [cbn; tauto|]). tauto.
 Qed.
 Print Assumptions C15_replicates_text_order_refuted.
+
+(* Why the snapshot of the package has to be taken BEFORE the user variables of the constructor are patched in
+   (conf.py: `self._original_flowir_0 = concrete.raw()` in __init__): with a snapshot taken at the first
+   parametrize() (Det.Reparam.parametrize_lazy) an object constructed with a file that sets x and then re-parametrized
+   WITHOUT files keeps serving that x; a fresh construction without files serves the value of the package.  No
+   finding: the code takes the snapshot in __init__ (in-memory FlowIR / DOSINI / FlowIR file; for DSL 2.0 see F15c). *)
+Definition one_file (f : string) : jv := JDict [("global", JDict [("x", JStr "one")])].
+Definition rp_pkg : package := [("default", [("0", JDict [("x", JStr "pkg")])])].
+Theorem C15_lazy_snapshot_refuted :
+  exists (read : string -> jv) pkg files,
+    (forall f, wfk (read f)) /\
+    let c := construct id_oracle pkg (read, files, "default") in
+    current (parametrize_lazy id_oracle "default" c (read, [], "default")) <>
+    current (construct id_oracle pkg (read, [], "default")) /\
+    current (parametrize id_oracle c (read, [], "default")) = current (construct id_oracle pkg (read, [], "default")).
+Proof.
+  exists one_file, rp_pkg, ["one.yaml"]. split.
+  - intros f. cbn. repeat split; repeat constructor; cbn; tauto.
+  - cbv zeta. split; [vm_compute; discriminate|reflexivity].
+Qed.
+Print Assumptions C15_lazy_snapshot_refuted.
